@@ -114,7 +114,7 @@ def IsRne53 (m : Nat) (e : Int) (q : Nat) (e' : Int) : Prop :=
 /-- `v as f64` is the integer rounded to nearest, ties to even -/
 theorem C18_int_to_f64 (v : Int) :
     ∃ q e', intToF64 v = .fin (decide (v < 0)) q e' ∧ IsRne53 v.natAbs 0 q e' := by
-  obtain ⟨k, q, h, h1, h2, h3, h4, h5⟩ := round53_nearest_even v.natAbs 0
+  obtain ⟨k, q, h, h1, h2, h3, h4, h5, _⟩ := round53_nearest_even v.natAbs 0
   refine ⟨q, 0 + (k : Int), ?_, k, rfl, h1, h2, h3, h4, h5⟩
   simp only [intToF64, h]
 
@@ -122,7 +122,7 @@ theorem C18_int_to_f64 (v : Int) :
 theorem C18_mul (n1 n2 : Bool) (m1 m2 : Nat) (e1 e2 : Int) :
     ∃ q e', F64.mul (.fin n1 m1 e1) (.fin n2 m2 e2) = .fin (n1 != n2) q e'
       ∧ IsRne53 (m1 * m2) (e1 + e2) q e' := by
-  obtain ⟨k, q, h, h1, h2, h3, h4, h5⟩ := round53_nearest_even (m1 * m2) (e1 + e2)
+  obtain ⟨k, q, h, h1, h2, h3, h4, h5, _⟩ := round53_nearest_even (m1 * m2) (e1 + e2)
   refine ⟨q, e1 + e2 + (k : Int), ?_, k, rfl, h1, h2, h3, h4, h5⟩
   simp only [F64.mul, h]
 
